@@ -522,7 +522,6 @@ func (pool *hostConnPool) fillingStopped(err error) {
 	pool.filling = false
 	count := len(pool.conns)
 	host := pool.host
-	port := pool.port
 	pool.mu.Unlock()
 
 	// if we errored and the size is now zero, make sure the host is marked as down
@@ -540,7 +539,7 @@ func (pool *hostConnPool) fillingStopped(err error) {
 			// while the pool was still connecting) says nothing about the host that
 			// is filed under that address now
 			if pool.session.ring.getHost(host.HostID()) == host {
-				pool.session.handleNodeDown(host.nodeToNodeAddress(), port)
+				pool.session.handleHostDown(host)
 			}
 		}
 	}
